@@ -113,6 +113,10 @@ func Thorough() bool { return os.Getenv("VERIF_TIER") == "thorough" }
 // request into a violation "alloc-budget". Natively a no-op.
 func AllocBudget(n int) {}
 
+// StepBudget bounds the interpreter steps of the rest of the path; exceeding it is reported as the violation
+// "bounded-work" (the native replay confirms it as a hang under a watchdog). Natively a no-op.
+func StepBudget(n int) {}
+
 // LoopBound sets the per-loop-header visit cap for the engine. Natively a no-op.
 func LoopBound(n int) {}
 
